@@ -79,6 +79,13 @@ def judge(b, off, ref):
     if i is None:
         return "excluded:miasmx_rejects"
     if i.l != ref[0]:
+        if n1.mn in SPLIT | END and disp_info(b, ref[0], n1.mn) is not None and n1.ops and n1.ops[0][0] == "rel":
+            # a direct relative branch: its length is architectural (prefixes + opcode + displacement of the operand size), so a wrong length is a
+            # wrong fall-through address and a wrong target, whatever C01 says about the same bytes
+            pf = split_prefixes(b)[0]
+            return ("fail", ("branch-length", "rel%d" % (8 * disp_info(b, ref[0], n1.mn)[0]), "o16" if 0x66 in pf else "o32", "a16" if 0x67 in pf else "a32"),
+                    "%s (%s) at 0x%x: decoded with length %d, the instruction has %d bytes: fall-through 0x%x instead of 0x%x" % (
+                        b[:ref[0]].hex(), ref[1], off, i.l, ref[0], (off + i.l) & 0xFFFFFFFF, (off + ref[0]) & 0xFFFFFFFF))
         return "excluded:length_disagreement(C01)"
     mn = n1.mn
     if sup and disp_info(b, i.l, mn) is None:
@@ -119,8 +126,48 @@ def judge(b, off, ref):
     return "ok:" + cl
 
 
+def flow_view(i):
+    if i is None:
+        return None
+    v = [i.l, int(i.getnextflow()), bool(i.breakflow()), bool(i.splitflow()), bool(i.dstflow())]
+    try:
+        v.append([int(x) for x in i.getdstflow()] if i.dstflow() else None)
+    except Exception:
+        v.append("non-numeric")
+    return v
+
+
+def mode_dict_reuse(b):
+    """the metadata of a decode must not depend on what the caller's mode dictionary was used for before: decode as 16-bit code, switch the
+    same dictionary to 32-bit code, decode again - the result must be that of a fresh {'opmode': u32}, and the dictionary must hold what the
+    caller put there"""
+    from miasmx.arch.ia32_arch import x86mnemo, u16, u32
+    try:
+        want = flow_view(x86mnemo.dis(b, {"opmode": u32}))
+        mode = {"opmode": u16}
+        x86mnemo.dis(b, mode)
+        if mode != {"opmode": u16}:
+            return ("caller-dictionary-modified", "dis(%s, {'opmode': u16}) left the caller's dictionary as %r" % (b.hex(), dict((k, str(v)) for k, v in mode.items())))
+        mode["opmode"] = u32
+        got = flow_view(x86mnemo.dis(b, mode))
+    except Exception as ex:
+        return None          # exceptions are C10's subject
+    if got != want:
+        return ("result-depends-on-earlier-use", "%s decoded with a mode dictionary used before for 16-bit code gives [l, next, break, split, dst, targets] = %s, with a fresh dictionary %s" % (b.hex(), got, want))
+    return None
+
+
 def worker(run, st, k, chunk):
     r1 = refs.objdump(chunk, scratch=run.scratch)
+    for b in chunk:
+        st.ev()
+        v = mode_dict_reuse(b)
+        if v is None:
+            st.klass("mode_dictionary_reuse_ok")
+        else:
+            sig = runner.norm_sig(("mode-dictionary", v[0]))
+            if not any(f[0] == sig for f in st.failures):
+                st.fail(sig, v[1], {"bytes": b.hex(), "offset": 0, "mode_dict": 1})
     for b, ref in zip(chunk, r1):
         for off in OFFSETS if (ref and nf.parse(ref[1], 0, ref[0]) and ref_class(nf.parse(ref[1], 0, ref[0]).mn) != "plain") else OFFSETS[:2]:
             st.ev()
@@ -159,6 +206,9 @@ def main(run):
 
 def replay(run, case):
     b = bytes.fromhex(case["bytes"])
+    if case.get("mode_dict"):
+        v = mode_dict_reuse(b)
+        return None if v is None else (("mode-dictionary", v[0]), v[1])
     ref = refs.objdump([b], scratch=run.scratch)[0]
     v = judge(b, case["offset"], ref)
     if isinstance(v, tuple):
